@@ -767,8 +767,11 @@ func TestVerifE7Fanout(t *testing.T) {
 				for bi, body := range bodies(r[0], segs) {
 					notify := (wi+bi)%3 == 0
 					users, hdrs := []string{}, [][2]string(nil)
-					if (wi+bi)%2 == 1 {
+					switch (wi + bi) % 4 {
+					case 1:
 						users, hdrs = []string{"alice", "bob"}, [][2]string{{"X-Forwarded-User", "bob"}}
+					case 3: // not an admin: every body, valid or not, must be refused before it is read
+						users, hdrs = []string{"alice"}, [][2]string{{"X-Forwarded-User", "mallory"}}
 					}
 					e.run(vfE7Case{method: r[0], segs: segs, users: users, acl: "X-Forwarded-User", sendHdrs: hdrs,
 						cidr: "127.0.0.1/8", notify: notify, body: body, world: w})
